@@ -38,6 +38,8 @@ class TransformCase(Case):
         self.scale_form = scale_form   # "size1": the scaler is given one scale that NumPy broadcasts over the variables
         self.N, self.L, self.C, self.K = N, L, C, K
         self.ptypes, self.boundary, self.lkinds, self.nkinds = tuple(ptypes), tuple(boundary), tuple(lkinds), tuple(nkinds)
+        if scale_form == "absent":
+            offsets = False
         self.obj_scaler, self.con_scaler, self.offsets = obj_scaler, con_scaler and C > 0, offsets
         self.reuse, self.fail, self.var_bounds = reuse, fail, var_bounds
         self.family = "transforms/" + ("relative" if "relative" in ptypes else "absolute") + ("/linear" if L else "")
@@ -68,7 +70,7 @@ class TransformCase(Case):
         if self.scale_form == "size1":
             s_arg = env.reals("s", 1, lo=Fraction(1, 10), hi=10)
             s = np.array([s_arg[0]] * N, dtype=object)
-        elif self.scale_form == "none":   # an offsets-only scaler
+        elif self.scale_form in ("none", "absent"):   # an offsets-only scaler / no variable transform at all
             s = np.array([SR(Fraction(1))] * N, dtype=object)
         else:
             s = env.reals("s", N, lo=Fraction(1, 10), hi=10)
@@ -164,7 +166,7 @@ class TransformCase(Case):
 
     def run(self, env, inp):
         tr = ens.make_transforms(
-            var_scales=None if self.scale_form == "none" else env.arr(inp["s"] if inp["s_arg"] is None else inp["s_arg"]), var_offsets=env.arr(inp["o"]) if self.offsets else None,
+            var_scales=None if self.scale_form in ("none", "absent") else env.arr(inp["s"] if inp["s_arg"] is None else inp["s_arg"]), var_offsets=env.arr(inp["o"]) if self.offsets else None,
             obj_scales=env.arr(inp["os"]) if self.obj_scaler else None,
             con_scales=env.arr(inp["cs"]) if self.con_scaler else None)
         a = self.one_side(env, inp, None)
@@ -176,7 +178,7 @@ class TransformCase(Case):
         b = self.one_side(env, inp, tr)
         # to/from identity on an arbitrary vector
         v = env.arr(inp["z"][0, 0])
-        ident = tr.variables.from_optimizer(tr.variables.to_optimizer(v))
+        ident = tr.variables.from_optimizer(tr.variables.to_optimizer(v)) if tr.variables is not None else v
         return {"a": a, "b": b, "ident": ident}
 
     def props(self, env, inp, oc):
@@ -387,6 +389,8 @@ def build_cases(tier):
     add(N=2, L=1, C=0, lkinds=("both",), var_bounds="none", obj_scaler=False)                  # linear constraints without any finite variable bound
     add(N=2, L=1, C=0, lkinds=("both",), offsets=False, scale_form="size1", obj_scaler=False)  # one scale broadcast over the variables
     add(N=2, L=1, C=0, lkinds=("both",), scale_form="none", obj_scaler=False)                    # offsets only
+    add(N=2, L=0, C=1, nkinds=("both",), scale_form="absent", obj_scaler=False)                  # a constraint transform and nothing else
+    add(N=1, L=0, C=1, nkinds=("upper",), scale_form="absent", ptypes=("absolute",), boundary=("none",))   # objective + constraint transforms, no variable transform
     for g in ("absent", "empty", "explicit"):
         k += 1
         cases.append(FullValidationCase(f"c11-{k:03d}", g))
